@@ -16,10 +16,14 @@ def hexOfBytes (bs : List Nat) : String :=
 
 def bytesOfHex (s : String) : Option (List Nat) := (hexToBytes? s).map fun l => l.map (·.toNat)
 
+/-- 64-bit FNV-1a over bytes (same as `vh::Fnv` in harness/vh.h) -/
+def fnvBytes (bs : List Nat) : String :=
+  toHex (bs.foldl (fun (h : UInt64) b => (h ^^^ b.toUInt64) * 1099511628211) fnvInit).toNat
+
 def joinC (xs : List String) : String := String.join (xs.map (· ++ ","))
 
 def renderView (v : View) : String :=
-  "S=" ++ joinC (v.sections.map fun s => s!"{hexOfBytes s.name}:{s.align}:{s.order}:{s.size}:{s.vsize}") ++
+  "S=" ++ joinC (v.sections.map fun s => s!"{hexOfBytes s.name}:{s.align}:{s.order}:{s.size}:{s.vsize}:{fnvBytes s.data}") ++
   " O=" ++ joinC (v.byOrder.map toString) ++
   " L=" ++ joinC (v.labels.map fun l => s!"{hexOfBytes l.name}:{l.type}:{l.parent}") ++
   s!" N={v.named.length}" ++
